@@ -42,7 +42,29 @@ Viol(r) ==
       starts == {i \in 1..n : i = 1 \/ calls[i].tag # calls[i - 1].tag}
       segOK(lo) == LET hi == Min({i \in lo..n : i = n \/ calls[i + 1].tag # calls[lo].tag})
                    IN \E j \in 1..N : j + (hi - lo) <= N /\ \A k \in 0..(hi - lo) : chain[j + k].okRec /\ SameRec(callRecs[lo + k], chainRecs[j + k])
+      \* Single worker, well-formed input: which set meets the f-th record_data_init call is determined by
+      \* the set sizes and the cyclic reuse of the queue_len + 1 data sets, hence so is the result.
+      wellFormed == \A i \in 1..N : (chain[i].okRec /\ chain[i].errs = {}) \/ (i = N /\ chain[i].okEnd /\ ~chain[i].okRec /\ chain[i].errs = {})
+      sizes == r.set_sizes
+      NS == Len(sizes)
+      dsOf(i) == ((i - 1) % (r.Q + 1)) + 1
+      RECURSIVE Sim(_, _, _)
+      \* Sim(i, outlen, cum): index of the set in which the f-th initialisation call happens (0 = none)
+      Sim(i, outlen, cum) ==
+        IF i > NS THEN 0
+        ELSE LET have == outlen[dsOf(i)]
+                 need == IF sizes[i] > have THEN sizes[i] - have ELSE 0
+             IN IF r.recinit_fail_at > cum /\ r.recinit_fail_at <= cum + need THEN i
+                ELSE Sim(i + 1, [outlen EXCEPT ![dsOf(i)] = IF sizes[i] > have THEN sizes[i] ELSE have], cum + need)
+      failSet == IF r.recinit_fail_at = 0 THEN 0 ELSE Sim(1, [d \in 1..(r.Q + 1) |-> 0], 0)
+      RECURSIVE SetOfRec(_, _, _)
+      SetOfRec(i, k, cum) == IF i > NS THEN 0 ELSE IF k <= cum + sizes[i] THEN i ELSE SetOfRec(i + 1, k, cum + sizes[i])
+      stopSet == IF r.stop_after = 0 THEN 0 ELSE SetOfRec(1, r.stop_after, 0)
+      expected == IF failSet > 0 /\ (stopSet = 0 \/ failSet <= stopSet) THEN "err_recinit"
+                  ELSE IF stopSet > 0 THEN "some" ELSE "none"
+      deterministic == r.NW = 1 /\ isInit /\ ~r.rinit_fail /\ r.setinit_fail_at = 0 /\ wellFormed
       conj == <<
+        <<"C15", "record_init_failure_not_returned_single_worker", ~deterministic \/ res.k = expected>>,
         <<"C07", "record_not_of_the_input", genuine>>,
         <<"C07", "record_delivered_more_than_once", ~genuine \/ atMostOnce>>,
         <<"C07", "output_not_computed_for_this_record", paired>>,
